@@ -189,6 +189,8 @@ def call_showbias(rows, ncols, metric, threshold, normalize, cfg, pos_label, **e
     if ncols == 2:
         data["hh"] = [r["h"] for r in rows]
     df = pd.DataFrame(data)
+    if extra.pop("_uint8", False):
+        df["sc"] = df["sc"].astype(np.uint8)
     if extra.pop("_shuffled_index", False):
         df.index = list(range(len(df)))[::-1]
     return showbias(df, "grp" if ncols == 1 else ["grp", "hh"], "lab", "sc", metric, normalize=normalize,
@@ -210,7 +212,8 @@ def run(item, ctx, tier, seed):
     groups = frame_groups(rows, ncols)
     special = any(("_" in str(x) or str(x).strip() == "") for k in groups for x in (k if isinstance(k, tuple) else (k,)))
     int_scores = all(isinstance(r["s"], int) for r in rows)
-    thr_list = [1.5, 2, 2.5] if int_scores else [0.5, 0.25, 0.8]
+    # four unsorted thresholds whose sorting permutation is one 4-cycle (not its own inverse)
+    thr_list = [1.5, 2.5, 0.5, 2] if int_scores else [0.5, 0.8, 0.25, 0.6]
     thr_scalar = thr_list[0]
     for mi, metric in enumerate(METRICS):
         for threshold, tl in ((thr_scalar, [thr_scalar]), (thr_list, thr_list)) if mi % 2 == rot % 2 else ((thr_list, thr_list),):
@@ -222,7 +225,7 @@ def run(item, ctx, tier, seed):
                 if len(groups) >= 2 and (special or how is not None):
                     ctx.nontrivial()
                 ok, bf = guarded(ctx, "showbias", case, call_showbias, rows, ncols, metric, threshold, how, cfg, pos_label,
-                                 _shuffled_index=(mi % 5 == 0))
+                                 _shuffled_index=(mi % 5 == 0), _uint8=(int_scores and mi % 2 == 0))
                 ctx.tick()
                 if not ok:
                     continue
@@ -306,7 +309,7 @@ def _run_bootstrap(item, ctx, b):
         return [s, mk(collapse(s.pos, s.pos_groups), np.arange(len(s.neg))),
                 mk(np.arange(len(s.pos)), dup_last(s.neg, s.neg_groups))]
 
-    thr_menu = [([0.5], 0.5), ([0.5, 0.3], [0.5, 0.3])]
+    thr_menu = [([0.5], 0.5), ([0.5, 0.8, 0.3, 0.6], [0.5, 0.8, 0.3, 0.6])]
     metrics = ["fnr", "topr", "accuracy", "fpr"]
     alpha = 0.2
     for n in range(1, b["max_nb_samples"] + 1):
